@@ -413,19 +413,22 @@ def main_mc(ctx, pid, bugs, persist):
 def coverage(rows):
     cov = {"mounts_ok": 0, "mounts_refused": 0, "overmounts": 0, "root_mounts": 0, "nested_mounts": 0, "umounts": 0, "wraparounds": 0,
            "table_full": 0, "requests": 0, "vacant_slot_requests": 0, "pseudo_requests": 0, "cross_mount_two_inode": 0,
-           "mountpoint_lookups": 0, "with_own_mapping": 0, "with_global_mapping": 0, "saverestore": 0, "saverestore_v1": 0, "ops": {}}
+           "mountpoint_lookups": 0, "with_own_mapping": 0, "with_global_mapping": 0, "saverestore": 0, "saverestore_v1": 0, "saved_after_wrap_with_mapping_above_next_super": 0, "ops": {}}
     mounted = {}
     lastidx = 0
     nocc = 0
     gm = False
+    wrapped, nexts, mapped = False, 1, {}
     for r in rows:
         e = r.get("e")
         if e == "Reset":
             mounted = {}
             lastidx = 0
+            wrapped, nexts, mapped = False, 1, {}
             gm = r["gmap"]["r"] != {"h": 0, "l": 0}
         elif e == "Prefill":
             lastidx = 255
+            wrapped, nexts = True, 0                   # 255 allocations: the counter is back at 0
             mounted.update({"/fill/%d" % k: k for k in range(r["first"], r["last"] + 1)})
         elif e == "Mount":
             if r["ret"] == "ok":
@@ -438,7 +441,12 @@ def coverage(rows):
                 if any(p.startswith(q + "/") for q in mounted if q != "/"):
                     cov["nested_mounts"] += 1
                 mounted[p] = r["idx"]
+                nexts = (r["idx"] + 1) % 256           # where the index counter stands after this allocation
+                mapped = {q: i for q, i in mapped.items() if q != p}
+                if r["some"]:
+                    mapped[p] = r["idx"]
                 if r["idx"] < lastidx:
+                    wrapped = True
                     cov["wraparounds"] += 1
                 lastidx = r["idx"]
                 if r["some"]:
@@ -452,8 +460,11 @@ def coverage(rows):
         elif e == "Umount" and r["ret"] == "ok":
             cov["umounts"] += 1
             mounted.pop("/" + "/".join(c for c in r["comps"] if c not in ("", ".")), None)
+            mapped.pop("/" + "/".join(c for c in r["comps"] if c not in ("", ".")), None)
         elif e == "SaveRestore" and r.get("ret") == "ok":
             cov["saverestore"] += 1
+            if wrapped and any(i >= nexts for i in mapped.values()):
+                cov["saved_after_wrap_with_mapping_above_next_super"] += 1
             if r.get("version") == 1:
                 cov["saverestore_v1"] += 1
         elif e == "Req":
@@ -610,7 +621,7 @@ def run_c14(ctx):
         cov = coverage(rows)
         gate(ctx, cov, ["with_own_mapping", "with_global_mapping", "overmounts", "wraparounds", "root_mounts", "mountpoint_lookups"])
         for op in ("lookup", "getattr", "setattr", "create", "mkdir", "mknod", "symlink", "link", "readdirplus"):
-            if not cov["ops"].get(op):
+            if not cov["ops"].get(op) and not ctx.violations:
                 raise C.ToolError("coverage gate: no %s request in the validated traces" % op)
 
         def mut(bad):
@@ -679,6 +690,21 @@ def run_c19(ctx):
                         cs.append(y)
                 scs += [dict(c, kind="control", pair=pair, id=c["id"] + "/ctl", steps=cs), dict(c, kind="persist", pair=pair, cut=-2)]
                 pair += 1
+        # directed: a save after the index counter wrapped around, while mounts with their own mapping sit at
+        # indices at and above next_super (x, y, z take 1, 2, 3; x is unmounted and mounted again: the counter
+        # wraps and stands at 2 with y and z, both with a mapping, above it); requests with ids follow
+        m1, m2 = {"i": 0, "e": 100000, "r": 65536}, {"i": 70000, "e": 5000, "r": 1000}
+        wrap = {"id": "wrap-saved", "src": "directed", "kind": "plain", "seed": ctx.seed * 7 + 1, "g": {"i": 0, "e": 0, "r": 0}, "scale": 1,
+                "emul": MODEL_N, "autoprobe": 3, "paths": ["/x", "/y", "/z"], "opts": {"no_open": False, "no_opendir": False},
+                "steps": [{"op": "mount", "path": "/x", "b": "b1", "m": m1, "ruid": 5, "rgid": 70001},
+                          {"op": "mount", "path": "/y", "b": "b2", "m": m2, "ruid": 70000, "rgid": 0},
+                          {"op": "mount", "path": "/z", "b": "b1", "m": m1, "ruid": 65535, "rgid": 3},
+                          {"op": "umount", "path": "/x"},
+                          {"op": "mount", "path": "/x", "b": "b2", "m": {"i": 0, "e": 0, "r": 0}},
+                          {"op": "umount", "path": "/y"},
+                          {"op": "mount", "path": "/y", "b": "b1", "m": m2, "ruid": 70999, "rgid": 70000}]}
+        scs += persist_variants(wrap, pair, cuts=[3, 5, 7])
+        pair += 1
         # seeded histories, a few cuts each
         rnd = gen_random(ctx, bd, abi, 1 if quick else 4, 100 if quick else 300, "churn", "c19")
         rnd1 = gen_random(ctx, bd, abi, 1 if quick else 2, 60 if quick else 200, "nomap", "c19n")
@@ -692,7 +718,7 @@ def run_c19(ctx):
         report(ctx, "C19", rows, viols, allsc, "replay")
         note_drift(ctx, drifts, rows, "c19")
         cov = coverage(rows)
-        gate(ctx, cov, ["saverestore", "saverestore_v1", "mounts_ok", "umounts", "with_own_mapping"])
+        gate(ctx, cov, ["saverestore", "saverestore_v1", "mounts_ok", "umounts", "with_own_mapping", "saved_after_wrap_with_mapping_above_next_super"])
         skipped = sum(1 for x in rows if x.get("e") == "SaveRestore" and x.get("ret") == "skipped")
 
         def mut(bad):
